@@ -202,6 +202,60 @@ fn long_code_program(t: &mut Tape) -> Prog {
     }
 }
 
+/// Long index tables: the globals table and a class's member table are u16 vectors whose length
+/// the program decides (the other variable-length parts of the format - string bytes and a
+/// method's code - have their own families above).
+fn wide_table_program(t: &mut Tape) -> Prog {
+    let n = [300usize, 2047, 2048, 2100, 4096, 4200, 6500][t.pick(7)];
+    let val = |t: &mut Tape, i: usize| -> E {
+        match t.pick(3) {
+            0 => E::Int(0),
+            1 => E::Int(i as i32),
+            _ => E::Null,
+        }
+    };
+    let mut p: Prog = vec![];
+    match t.pick(4) {
+        // globals only
+        0 => {
+            for i in 0..n {
+                let v = val(t, i);
+                p.push(let_(&format!("g{}", i), v));
+            }
+        }
+        // one object with n fields
+        1 => {
+            let ms: Vec<Member> = (0..n).map(|i| Member::Field(format!("f{}", i), val(t, i))).collect();
+            p.push(let_("wide", E::Object(None, ms)));
+        }
+        // functions are globals too; a few hundred of them mixed with variables
+        2 => {
+            for i in 0..n {
+                if i % 8 == 0 {
+                    p.push(E::Fun(format!("fn{}", i), vec![], bx(E::Int(i as i32))));
+                } else {
+                    let v = val(t, i);
+                    p.push(let_(&format!("g{}", i), v));
+                }
+            }
+        }
+        // an object with n/2 fields and n/2 methods, and as many globals
+        _ => {
+            let mut ms: Vec<Member> = vec![];
+            for i in 0..n / 2 {
+                ms.push(Member::Field(format!("f{}", i), val(t, i)));
+                ms.push(Member::Method(format!("m{}", i), vec![], E::Int(1)));
+            }
+            p.push(let_("wide", E::Object(None, ms)));
+            for i in 0..n {
+                p.push(let_(&format!("g{}", i), E::Int(0)));
+            }
+        }
+    }
+    p.push(print("done\\n", vec![]));
+    p
+}
+
 fn judge_program(prog: &Prog, ctx: &mut Ctx, t: &mut Tape, tape: &[u8]) -> Judged {
     let src = render::text(prog, render::Style::Minimal);
     let case = || json!({"tape": hex(tape), "source_prefix": src.chars().take(300).collect::<String>(), "source_len": src.len()});
@@ -252,9 +306,10 @@ fn cli_triples(ctx: &mut Ctx) -> Vec<Violation> {
         }
         let tape = crate::tools::random_tape(crate::tape::mix(ctx.seed ^ (i as u64 * 1_000_003)), 300);
         let mut t = Tape::new(&tape);
-        let prog = match i % 4 {
-            0 | 2 => long_string_program(&mut t),
-            1 => long_code_program(&mut t),
+        let prog = match i % 8 {
+            0 | 2 | 4 => long_string_program(&mut t),
+            1 | 5 => long_code_program(&mut t),
+            3 => wide_table_program(&mut t),
             _ => generate(&mut t, &Profile::full()).prog,
         };
         let src = render::text(&prog, render::Style::Minimal);
@@ -337,7 +392,7 @@ impl Property for C08 {
         "fault_enumeration"
     }
     fn rule(&self) -> String {
-        "cases: programs from the typed generator, programs whose single method holds 1200-5000 statements (several 4 KiB blocks of instructions) and programs with string constants of 1.1/3/9/70 KiB (with and without leading raw newlines) and several methods; for each program Program::serialize is called in-process on sinks that honour the Write contract: (i) every per-call acceptance limit k in {1,2,3,4,5,7,8,13,16,64,1000}; (ii) EVERY single write call in turn shortened to ceil(len/2) and to 1 byte (complete for programs up to 600 write calls in quick / 4000 in thorough, beyond that evenly thinned with the count reported); (iii) tape-driven schedules incl. Err(Interrupted) before accepting. oracle: the call returns an error, or the sink holds exactly the bytes of serializing into memory. Real stdout: `fml compile x.json -o f`, `> f` and `| reader` must give identical files (and equal the in-process image). non-trivial: at least one write call was actually shortened (counted by the sink); distinct by (image, schedule)".into()
+        "cases: (program families: generated / long strings / long code / wide tables = 2047..6500 globals, fields, methods, functions; counted as family:*) programs from the typed generator, programs whose single method holds 1200-5000 statements (several 4 KiB blocks of instructions) and programs with string constants of 1.1/3/9/70 KiB (with and without leading raw newlines) and several methods; for each program Program::serialize is called in-process on sinks that honour the Write contract: (i) every per-call acceptance limit k in {1,2,3,4,5,7,8,13,16,64,1000}; (ii) EVERY single write call in turn shortened to ceil(len/2) and to 1 byte (complete for programs up to 600 write calls in quick / 4000 in thorough, beyond that evenly thinned with the count reported); (iii) tape-driven schedules incl. Err(Interrupted) before accepting. oracle: the call returns an error, or the sink holds exactly the bytes of serializing into memory. Real stdout: `fml compile x.json -o f`, `> f` and `| reader` must give identical files (and equal the in-process image). non-trivial: at least one write call was actually shortened (counted by the sink); distinct by (image, schedule)".into()
     }
     fn assumptions(&self) -> Vec<String> {
         vec!["sinks never return Ok(0) for a non-empty buffer and never lie about the count (the usual Write contract)".into()]
@@ -353,10 +408,13 @@ impl Property for C08 {
     }
     fn judge_tape(&self, tape: &[u8], ctx: &mut Ctx) -> Judged {
         let mut t = Tape::new(tape);
-        let prog = match t.weighted(&[9, 3, 1]) {
+        let family = t.weighted(&[36, 12, 4, 1]);
+        ctx.label(["family:generated", "family:long-strings", "family:long-code", "family:wide-tables"][family]);
+        let prog = match family {
             0 => generate(&mut t, &Profile::full()).prog,
             1 => long_string_program(&mut t),
-            _ => long_code_program(&mut t),
+            2 => long_code_program(&mut t),
+            _ => wide_table_program(&mut t),
         };
         judge_program(&prog, ctx, &mut t, tape)
     }
